@@ -3,6 +3,7 @@ import Nv.Spec.C05
 import Nv.Proofs.C05Hist
 import Nv.Proofs.C05Agree
 import Nv.Proofs.C05Recent
+import Nv.Proofs.C05Scan
 /-!
 C05 — property theorems for the TTL caches (model: `Nv.Model.C05`, history spec: `Nv.Spec.C05`).
 
@@ -194,6 +195,22 @@ theorem ttl_mem_rds_agree (c : Cfg) (hc : Proved c) (clock size : Nat) (dttl : I
 theorem ttl_mem_rds_step (c : Cfg) (hc : Proved c) (s : Sys) (hR : Rel s) (op : Op) (ha : admOp s op) :
     (Sys.step c s op).2.1 = (Sys.step c s op).2.2 ∧ Rel (Sys.step c s op).1 :=
   agree_sys_step hc hR ha
+
+/-! ### Clear on redis: the SCAN iteration must be followed to the end -/
+
+/-- For every paging of the key space (any page sizes, short and empty pages included) in which each stored key
+    appears on some page — what redis guarantees for an iteration followed until the cursor is 0 — deleting the
+    keys of every page leaves the store empty, i.e. `Clear` is `Rds.step .clear` of the model. -/
+theorem ttl_rds_clear_all_pages (pages : List (List Key)) (st : List REntry)
+    (hcov : ∀ e ∈ st, ∃ pg ∈ pages, e.key ∈ pg) : clearPages pages st = [] :=
+  clearPages_covering pages st hcov
+
+/-- non-vacuity, and the counter-example for a Clear that consumes only the first page (cursor dropped):
+    12 keys in pages of 10 and 2 (with an empty page in between) — all pages: nothing left; first page: 2 survive -/
+theorem witness_clear_first_page_only :
+    let st : List REntry := (List.range 12).map (fun k => ⟨k, k + 1, none⟩)
+    let pages : List (List Key) := [List.range 10, [], [10, 11]]
+    clearPages pages st = [] ∧ (clearFirstPage pages st).map (·.key) = [10, 11] := by decide
 
 /-! ### non-vacuity -/
 
